@@ -1,6 +1,8 @@
 import Pcore.Proofs.DispatchRun
 import Pcore.Proofs.DispatchCtors
 import Pcore.Proofs.DispatchStruct
+import Pcore.Proofs.CtorNum
+import Pcore.Model.CtorNew
 import Pcore.Generated.FnFacts
 /-!
 # C16 — Dispatch and construction are type-safe
@@ -46,9 +48,9 @@ Full statement / proved / missing
 * `C16_new`            — `newInstance recv args = value r` ⇒ `r` is an instance of the receiver (of the contained type for
                          `Init[T]`), for every constructor function, hence never a value outside the type; `C16_new_outside`:
                          a constructor result outside the type becomes `reported TYPE_MISMATCH`.
-* `Alpha.C16_newm`, `Alpha.C16_ctor_no_fault` — for the three constructors modelled end to end on the driver's alphabet
-                         (Integer, Boolean, Array/Tuple, Hash/Struct without the tree-array dispatch: dispatch table built by the same builder,
-                         body, assertion; also through
+* `Alpha.C16_newm`, `Alpha.C16_ctor_no_fault` — for the constructors modelled end to end on the driver's alphabet
+                         (Integer, Float, Numeric, Boolean, Array/Tuple, Hash/Struct without the tree-array dispatch: dispatch
+                         table built by the same builder, body, assertion; also through
                          `Init[T]`): the value that comes out is in the receiver type, and no type assertion / index of a body
                          can fail because a body only runs with arguments its declaration accepts (compared value by value
                          with the real constructors by the op `newm`).
@@ -58,6 +60,16 @@ Full statement / proved / missing
                          an empty / non-string / undeclared key is reported although its inferred `Hash[K,V,n,n]` type is
                          one the Struct is assignable from).  Rests on `inst_struct` (Proofs/DispatchStruct.lean): the count
                          `matched == Len()` of `StructType.IsInstance` read declaratively.
+* `Alpha.C16_float_new`, `Alpha.C16_numeric_new`, `Alpha.C16_float_ctor`, `Alpha.C16_numeric_ctor` — the Float and Numeric
+                         constructors (positional and named-argument dispatch, `fromConvertible`, `abs`; `strconv.ParseFloat`
+                         is an arbitrary function `pf`): the body answers a float (Float) / an integer or a float (Numeric)
+                         or the reported argument error, for ANY argument list; hence `Numeric.new` never ends in
+                         TYPE_MISMATCH and what `Float[lo,hi].new` returns is a float within the bounds (never NaN).
+* `Alpha.C16_float_named_positional`, `Alpha.C16_numeric_named_positional` — `T.new({from => x, abs => a})` is
+                         `T.new(x, a)` for ANY values `x`, `a`, and `T.new({from => x})` is `T.new(x)` for every `x` that
+                         is not itself a hash.
+* `Alpha.C16_number_abs` — with `abs = true` the Numeric / Float constructor answers a non-negative integer (or the minimum
+                         integer, whose negation wraps) or `|f|` of a float, which is never `< 0` (`F64.abs_not_neg`).
 * missing / trusted    — the other constructors' bodies (String formatting, Hash from tree arrays, Timespan, SemVer, …) are not
                          modelled: `C16_new` quantifies over an arbitrary constructor function, and the general `new` op of
                          the correspondence run is implementation-only (a test with the direct predicate, not a proof);
@@ -321,17 +333,22 @@ end
 
 namespace Alpha
 
-/-! ### the modelled constructors (Integer, Boolean, Array on the alphabet values): `new` end to end -/
+/-! ### the modelled constructors on the alphabet values: `new` end to end
+`pf` is `strconv.ParseFloat(·, 64)` as a function from the text to the bits of the result: every theorem is for an ARBITRARY
+`pf`; the driver (and the examples) use the exact reader of Model/Num.lean. -/
+
+section
+variable (pf : List Char → Option Nat)
 
 def RecvTy.type? : RecvTy → Option Ty
   | .plain t => some t
   | .init t => some t
   | .initDefault => none
 
-theorem newModel_some (r : RecvTy) (args : List Val) (o : NewOutcome Val) (h : newModel r args = some o) :
-    ∃ recv, recvOf r = some recv ∧ newInstance inst recv args = o := by
+theorem newModel_some (r : RecvTy) (args : List Val) (o : NewOutcome Val) (h : newModel pf r args = some o) :
+    ∃ recv, recvOf pf r = some recv ∧ newInstance inst recv args = o := by
   unfold newModel at h
-  cases hr : recvOf r with
+  cases hr : recvOf pf r with
   | none => simp [hr] at h
   | some recv =>
     refine ⟨recv, rfl, ?_⟩
@@ -342,9 +359,9 @@ theorem newModel_some (r : RecvTy) (args : List Val) (o : NewOutcome Val) (h : n
 
 /-- what `new` returns is an instance of the receiver (of the contained type for `Init[T]`) — for the modelled
     constructors of Integer, Boolean, Array/Tuple and Hash/Struct: the assertion is made on the constructor's result VALUE -/
-theorem C16_newm (r : RecvTy) (args : List Val) (v : Val) (h : newModel r args = some (.value v)) :
+theorem C16_newm (r : RecvTy) (args : List Val) (v : Val) (h : newModel pf r args = some (.value v)) :
     ∃ t, r.type? = some t ∧ inst t v = true := by
-  obtain ⟨recv, hr, hn⟩ := newModel_some r args _ h
+  obtain ⟨recv, hr, hn⟩ := newModel_some pf r args _ h
   obtain ⟨t, ht, hi⟩ := C16_new inst recv args v hn
   refine ⟨t, ?_, hi⟩
   cases r with
@@ -373,38 +390,39 @@ theorem newInstance_no_fault {T V : Type} (inst : T → V → Bool) (recv : Recv
     | reported _ => simp
     | value v => simp only [assertInstance]; split <;> simp
 
-theorem ctorOf_no_fault (t : Ty) (c : Ctor) (h : ctorOf t = .some c) : ∀ a, ctorCall c a ≠ .fault := by
+theorem ctorOf_no_fault (t : Ty) (c : Ctor) (h : ctorOf pf t = .some c) : ∀ a, ctorCall c a ≠ .fault := by
   cases t <;> simp [ctorOf] at h <;> subst h <;>
     first | exact integer_no_fault | exact boolean_no_fault | exact array_no_fault | exact hash_no_fault
+          | exact float_no_fault pf | exact numeric_no_fault pf
 
 /-- no type assertion or index in the bodies of the modelled constructors can fail: a body runs only with arguments its
     declaration accepts -/
-theorem C16_ctor_no_fault (r : RecvTy) (args : List Val) : newModel r args ≠ some .fault := by
+theorem C16_ctor_no_fault (r : RecvTy) (args : List Val) : newModel pf r args ≠ some .fault := by
   intro h
-  obtain ⟨recv, hr, hn⟩ := newModel_some r args _ h
+  obtain ⟨recv, hr, hn⟩ := newModel_some pf r args _ h
   refine newInstance_no_fault inst recv args ?_ hn
   intro t f hrf
   cases r with
   | plain t0 =>
     simp only [recvOf] at hr
-    cases hct : ctorOf t0 with
+    cases hct : ctorOf pf t0 with
     | none => simp [hct] at hr; subst hr; simp at hrf
     | unmodelled => simp [hct] at hr
     | some c =>
       simp [hct] at hr; subst hr
       rcases hrf with hrf | hrf <;> simp at hrf
       obtain ⟨_, rfl⟩ := hrf
-      exact ctorOf_no_fault t0 c hct args
+      exact ctorOf_no_fault pf t0 c hct args
   | init t0 =>
     simp only [recvOf] at hr
-    cases hct : ctorOf t0 with
+    cases hct : ctorOf pf t0 with
     | none => simp [hct] at hr; subst hr; simp at hrf
     | unmodelled => simp [hct] at hr
     | some c =>
       simp [hct] at hr; subst hr
       rcases hrf with hrf | hrf <;> simp at hrf
       obtain ⟨_, rfl⟩ := hrf
-      exact initCall_no_fault c (ctorOf_no_fault t0 c hct) args
+      exact initCall_no_fault c (ctorOf_no_fault pf t0 c hct) args
   | initDefault => simp [recvOf] at hr; subst hr; simp at hrf
 
 /-- `Struct[{…}].new` (distinct member names), whichever dispatch of the Hash constructor produced the hash and whatever
@@ -412,37 +430,142 @@ theorem C16_ctor_no_fault (r : RecvTy) (args : List Val) : newModel r args ≠ s
     optional and absent.  The assertion looks at the VALUE: a hash with an empty, a non-string or an undeclared key is
     never returned, although its inferred type `Hash[K,V,n,n]` is one the Struct type is assignable from -/
 theorem C16_new_struct (ms : List (String × Bool × Ty)) (hnd : (ms.map (·.1)).Nodup) (init : Bool) (args : List Val) (v : Val)
-    (h : newModel (if init then .init (.struct ms) else .plain (.struct ms)) args = some (.value v)) :
+    (h : newModel pf (if init then .init (.struct ms) else .plain (.struct ms)) args = some (.value v)) :
     ∃ es, v = .hash es ∧ (∀ e ∈ es, ∃ m ∈ ms, e.1 = .str m.1) ∧
       ∀ m ∈ ms, (∃ x, lookupKey m.1 es = some x ∧ inst m.2.2 x = true) ∨ (m.2.1 = true ∧ lookupKey m.1 es = none) := by
-  obtain ⟨t, ht, hi⟩ := C16_newm _ args v h
+  obtain ⟨t, ht, hi⟩ := C16_newm pf _ args v h
   cases init <;> simp [RecvTy.type?] at ht <;> subst ht <;> exact inst_struct ms hnd v hi
+
+/-! ### Float and Numeric -/
+
+/-- the Float constructor (before the final assertion) answers a float or the reported argument error, for ANY arguments -/
+theorem C16_float_ctor (args : List Val) :
+    (∃ b, ctorCall (floatCtor pf) args = .value (.float b)) ∨ ctorCall (floatCtor pf) args = .reported "ILLEGAL_ARGUMENTS" := by
+  rcases float_ctor_cases pf args with ⟨v, hv, hf⟩ | h
+  · cases v <;> simp [isFloat] at hf
+    exact Or.inl ⟨_, hv⟩
+  · exact Or.inr h
+
+/-- the Numeric constructor answers an integer or a float, or the reported argument error -/
+theorem C16_numeric_ctor (args : List Val) :
+    (∃ v, ctorCall (numericCtor pf) args = .value v ∧ inst .numeric v = true) ∨
+    ctorCall (numericCtor pf) args = .reported "ILLEGAL_ARGUMENTS" := by
+  rcases numeric_ctor_cases pf args with ⟨v, hv, hn⟩ | h
+  · refine Or.inl ⟨v, hv, ?_⟩
+    cases v <;> simp [isNumber] at hn <;> simp [inst]
+  · exact Or.inr h
+
+/-- `Float[lo,hi].new(…)` returns a float within the (effective) bounds, never NaN -/
+theorem C16_float_new (lo hi : Int) (args : List Val) (v : Val)
+    (h : newModel pf (.plain (.float lo hi)) args = some (.value v)) :
+    ∃ b, v = .float b ∧ F64.inRange lo hi b = true ∧ F64.isNaN b = false := by
+  obtain ⟨t, ht, hi'⟩ := C16_newm pf _ args v h
+  simp [RecvTy.type?] at ht; subst ht
+  cases v with
+  | float b =>
+    simp only [inst] at hi'
+    refine ⟨b, rfl, hi', ?_⟩
+    cases hn : F64.isNaN b
+    · rfl
+    · simp [F64.inRange, F64.key, hn] at hi'
+  | _ => simp [inst] at hi'
+
+/-- `Numeric.new(…)` is an integer, a float or the argument error: the final assertion never fails, no TYPE_MISMATCH -/
+theorem C16_numeric_new (args : List Val) :
+    (∃ v, newModel pf (.plain .numeric) args = some (.value v) ∧ inst .numeric v = true) ∨
+    newModel pf (.plain .numeric) args = some (.reported "ILLEGAL_ARGUMENTS") := by
+  rcases C16_numeric_ctor pf args with ⟨v, hv, hn⟩ | h
+  · exact Or.inl ⟨v, by simp [newModel, recvOf, ctorOf, newInstance, hv, assertInstance, hn], hn⟩
+  · exact Or.inr (by simp [newModel, recvOf, ctorOf, newInstance, h])
+
+/-- the named-argument form is the positional form: `Float[lo,hi].new({from => x, abs => a}) = Float[lo,hi].new(x, a)` for
+    ANY two values, and `Float[lo,hi].new({from => x}) = Float[lo,hi].new(x)` for every `x` that is not itself a hash -/
+theorem C16_float_named_positional (lo hi : Int) (x a : Val) :
+    newModel pf (.plain (.float lo hi)) [.hash [(.str "from", x), (.str "abs", a)]] =
+      newModel pf (.plain (.float lo hi)) [x, a] ∧
+    ((∀ es, x ≠ .hash es) →
+      newModel pf (.plain (.float lo hi)) [.hash [(.str "from", x)]] = newModel pf (.plain (.float lo hi)) [x]) := by
+  constructor
+  · simp only [newModel, recvOf, ctorOf, newInstance, float_named_eq_positional2]
+  · intro hx
+    simp only [newModel, recvOf, ctorOf, newInstance, float_named_eq_positional1 pf x hx]
+
+theorem C16_numeric_named_positional (x a : Val) :
+    newModel pf (.plain .numeric) [.hash [(.str "from", x), (.str "abs", a)]] = newModel pf (.plain .numeric) [x, a] ∧
+    ((∀ es, x ≠ .hash es) →
+      newModel pf (.plain .numeric) [.hash [(.str "from", x)]] = newModel pf (.plain .numeric) [x]) := by
+  constructor
+  · simp only [newModel, recvOf, ctorOf, newInstance, numeric_named_eq_positional2]
+  · intro hx
+    simp only [newModel, recvOf, ctorOf, newInstance, numeric_named_eq_positional1 pf x hx]
+
+/-- `abs = true`: what the body of the Numeric (`tryInt`) or Float constructor answers is a non-negative integer (or the
+    minimum integer) or `floatValue.Abs` of a float — and that is never `< 0` for a double -/
+theorem C16_number_abs (from_ : Val) (tryInt : Bool) (v : Val)
+    (h : numberBody pf from_ (some (.bool true)) tryInt = .value v) :
+    AbsResult v ∧ ∀ b, b < 2 ^ 64 → F64.ltZero (F64.abs b) = false :=
+  ⟨numberBody_abs pf from_ tryInt v h, F64.abs_not_neg⟩
+
+end
+
+/-- the exact decimal reader of Model/Num.lean: what the driver uses for `strconv.ParseFloat` -/
+def pfx : List Char → Option Nat := fun cs => Pcore.Syntax.parseFloat cs
 
 -- non-vacuity and the excluded values: a declared hash is returned; '' / non-string / undeclared keys and a missing
 -- member are reported, through the hash, the key-value-array and the flat-array dispatch
 def structA : Ty := .struct [("a", false, .int none none)]
 def structAB : Ty := .struct [("a", false, .int none none), ("b", true, .bool)]
-example : newModel (.plain structA) [.hash [(.str "a", .int 1)]] = some (.value (.hash [(.str "a", .int 1)])) := by rfl
-example : newModel (.plain structAB) [.arr [.arr [.str "b", .bool true], .arr [.str "a", .int 1]]] =
+example : newModel pfx (.plain structA) [.hash [(.str "a", .int 1)]] = some (.value (.hash [(.str "a", .int 1)])) := by rfl
+example : newModel pfx (.plain structAB) [.arr [.arr [.str "b", .bool true], .arr [.str "a", .int 1]]] =
     some (.value (.hash [(.str "b", .bool true), (.str "a", .int 1)])) := by rfl
-example : newModel (.plain structA) [.hash [(.str "", .int 1)]] = some (.reported "TYPE_MISMATCH") := by rfl
-example : newModel (.plain structA) [.arr [.str "", .int 1]] = some (.reported "TYPE_MISMATCH") := by rfl
-example : newModel (.plain (.struct [("a", true, .int none none)])) [.hash [(.int 1, .bool true)]] =
+example : newModel pfx (.plain structA) [.hash [(.str "", .int 1)]] = some (.reported "TYPE_MISMATCH") := by rfl
+example : newModel pfx (.plain structA) [.arr [.str "", .int 1]] = some (.reported "TYPE_MISMATCH") := by rfl
+example : newModel pfx (.plain (.struct [("a", true, .int none none)])) [.hash [(.int 1, .bool true)]] =
     some (.reported "TYPE_MISMATCH") := by rfl
-example : newModel (.plain structAB) [.hash [(.str "a", .int 1), (.str "", .int 2)]] = some (.reported "TYPE_MISMATCH") := by rfl
-example : newModel (.plain structAB) [.hash [(.str "a", .int 1), (.str "a", .int 2)]] = some (.reported "TYPE_MISMATCH") := by rfl
-example : newModel (.init structA) [.hash [(.str "z", .int 1)]] = some (.reported "TYPE_MISMATCH") := by rfl
-example : newModel (.plain (.hash (.int none none) .any 1 (some 1))) [.arr [.int 1, .undef]] =
+example : newModel pfx (.plain structAB) [.hash [(.str "a", .int 1), (.str "", .int 2)]] = some (.reported "TYPE_MISMATCH") := by rfl
+example : newModel pfx (.plain structAB) [.hash [(.str "a", .int 1), (.str "a", .int 2)]] = some (.reported "TYPE_MISMATCH") := by rfl
+example : newModel pfx (.init structA) [.hash [(.str "z", .int 1)]] = some (.reported "TYPE_MISMATCH") := by rfl
+example : newModel pfx (.plain (.hash (.int none none) .any 1 (some 1))) [.arr [.int 1, .undef]] =
     some (.value (.hash [(.int 1, .undef)])) := by rfl
 
-example : newModel (.plain (.int none none)) [.int 3] = some (.value (.int 3)) := by rfl
-example : newModel (.plain (.int none none)) [.int (-3), .default, .bool true] = some (.value (.int 3)) := by rfl
-example : newModel (.plain (.int (some 0) (some 5))) [.bool true] = some (.value (.int 1)) := by rfl
-example : newModel (.init (.int (some 0) (some 5))) [.int 7] = some (.reported "TYPE_MISMATCH") := by rfl
-example : newModel (.plain (.arr (.int none none) 1 none)) [.arr [.int 1], .bool true] = some (.reported "TYPE_MISMATCH") := by rfl
-example : newModel (.plain (.arr .any 1 none)) [.arr [.int 1], .bool true] = some (.value (.arr [.arr [.int 1]])) := by rfl
-example : newModel (.plain .bool) [.int 0] = some (.value (.bool false)) := by rfl
-example : newModel (.plain (.opt (.int none none))) [.int 0] = some (.reported "INSTANCE_DOES_NOT_RESPOND") := by rfl
+example : newModel pfx (.plain (.int none none)) [.int 3] = some (.value (.int 3)) := by rfl
+example : newModel pfx (.plain (.int none none)) [.int (-3), .default, .bool true] = some (.value (.int 3)) := by rfl
+example : newModel pfx (.plain (.int (some 0) (some 5))) [.bool true] = some (.value (.int 1)) := by rfl
+example : newModel pfx (.init (.int (some 0) (some 5))) [.int 7] = some (.reported "TYPE_MISMATCH") := by rfl
+example : newModel pfx (.plain (.arr (.int none none) 1 none)) [.arr [.int 1], .bool true] = some (.reported "TYPE_MISMATCH") := by rfl
+example : newModel pfx (.plain (.arr .any 1 none)) [.arr [.int 1], .bool true] = some (.value (.arr [.arr [.int 1]])) := by rfl
+example : newModel pfx (.plain .bool) [.int 0] = some (.value (.bool false)) := by rfl
+example : newModel pfx (.plain (.opt (.int none none))) [.int 0] = some (.reported "INSTANCE_DOES_NOT_RESPOND") := by rfl
+
+-- Float and Numeric: strings through strconv, the named form, abs, NaN (C16_float_new: never returned by a Float type)
+def dfltFloat : Ty := .float (-F64.maxFiniteKey) F64.maxFiniteKey
+example : outText (newModel pfx (.plain .numeric) [.str "0x1F"]) = "value (i 31)" := by decide +kernel
+example : outText (newModel pfx (.plain .numeric) [.str "0777"]) = "value (i 511)" := by decide +kernel
+example : outText (newModel pfx (.plain .numeric) [.str "1.5"]) = "value (f 4609434218613702656)" := by decide +kernel
+example : outText (newModel pfx (.plain .numeric) [.str "9223372036854775808"]) = "value (f 4890909195324358656)" := by
+  decide +kernel
+example : outText (newModel pfx (.plain dfltFloat) [.str "0777"]) = "value (f 4650045780097236992)" := by decide +kernel
+example : outText (newModel pfx (.plain dfltFloat) [.str "0x1F"]) = "reported ILLEGAL_ARGUMENTS" := by decide +kernel
+example : outText (newModel pfx (.plain dfltFloat) [.str "- 5"]) = "reported ILLEGAL_ARGUMENTS" := by decide +kernel
+example : outText (newModel pfx (.plain dfltFloat) [.int 9007199254740993]) = "value (f 4845873199050653696)" := by
+  decide +kernel
+example : outText (newModel pfx (.plain .numeric) [.hash [(.str "from", .str "-4.5"), (.str "abs", .bool true)]]) =
+    "value (f 4616752568008179712)" := by decide +kernel
+example : outText (newModel pfx (.plain .numeric) [.int (-9223372036854775808), .bool true]) =
+    "value (i -9223372036854775808)" := by decide +kernel
+example : outText (newModel pfx (.plain dfltFloat) [.float 0x7FF8000000000001]) = "reported TYPE_MISMATCH" := by
+  decide +kernel
+example : outText (newModel pfx (.plain .numeric) [.float 0x7FF8000000000001]) = "value (f 9221120237041090561)" := by
+  decide +kernel
+example : outText (newModel pfx (.plain (.float 0 F64.maxFiniteKey)) [.str "-1.5"]) = "reported TYPE_MISMATCH" := by
+  decide +kernel
+example : outText (newModel pfx (.plain (.int none none)) [.hash [(.str "from", .str "11"), (.str "radix", .int 2)]]) =
+    "value (i 3)" := by decide +kernel
+example : outText (newModel pfx (.plain (.int none none)) [.float 0xC004000000000000]) = "value (i -2)" := by decide +kernel
+example : outText (newModel pfx (.plain (.int none none)) [.float 0x7FF0000000000000]) = "value (i -9223372036854775808)" := by
+  decide +kernel
+example : resText (numberBody pfx (.float 0xC004000000000000) (some (.bool true)) false) = "value (f 4612811918334230528)" := by
+  decide +kernel
 
 /-- `Param(Integer[0,5]); OptionalParam(Boolean); OptionalBlock(Callable[1,1]); RepeatedParam(Variant[Integer,Undef])` -/
 def sampleOps : List (BOp Ty BTy) :=
